@@ -521,3 +521,333 @@ Proof.
     intros H. inversion H. split; reflexivity.
   - unfold step. unfold finished at 1. specialize (M s0 E0). apply Z.leb_le in M. rewrite M. cbn. discriminate.
 Qed.
+
+(* ------------------------------------------------------------------ hypothesis of coverage, executable *)
+Lemma both_ways_free_sound pd : both_ways_free pd = true -> no_gene_both_ways (marks_of pd).
+Proof.
+  intros H g p Hm. unfold marks_of in *. cbn [fst snd] in *.
+  unfold both_ways_free in H. rewrite forallb_forall in H.
+  destruct (Nat.lt_ge_cases p (length pd)) as [L|L].
+  - assert (Hin : In (nth p pd ([], [])) pd) by (apply nth_In; exact L).
+    specialize (H _ Hin). rewrite forallb_forall in H.
+    apply nmem_in in Hm. specialize (H g Hm). apply negb_true_iff in H. exact H.
+  - rewrite nth_overflow in Hm by exact L. cbn in Hm. discriminate.
+Qed.
+
+(* ------------------------------------------------------------------ the executable statement holds on every run *)
+Lemma nodup_b_spec l : nodup_b l = true <-> NoDup l.
+Proof.
+  induction l as [|x t IH]; cbn; [split; [constructor | reflexivity]|].
+  rewrite andb_true_iff, negb_true_iff, nmem_false, IH. split.
+  - intros [H1 H2]. constructor; assumption.
+  - intros H. inversion H; subst. split; assumption.
+Qed.
+
+Theorem spec_holds n_genes pairs marks n trace st :
+  no_gene_both_ways marks ->
+  run n_genes pairs marks n (start n_genes pairs marks n) trace = Some st ->
+  spec_c12 n_genes pairs marks n (chosen st) = true.
+Proof.
+  intros Hb H. unfold spec_c12. rewrite !andb_true_iff. split; [split|].
+  - apply nodup_b_spec. apply (no_duplicates _ _ _ _ _ _ H).
+  - apply forallb_forall. intros g Hg.
+    destruct (only_useful_genes _ _ _ _ _ _ H g Hg) as (L & p & d & Hp & Hm).
+    apply andb_true_iff. split; [apply Nat.ltb_lt; exact L|].
+    apply existsb_exists. exists (p, d). split; [apply slot_in; exact Hp | exact Hm].
+  - apply forallb_forall. intros p Hp. apply Nat.leb_le.
+    pose proof (coverage _ _ _ _ _ _ Hb H p Hp) as C.
+    rewrite (covered_split marks (genes n_genes) p Hb) in C. exact C.
+Qed.
+
+(* ------------------------------------------------------------------ the order of the pairs is irrelevant *)
+(* two states that differ only in the ORDER of the chosen list *)
+Definition same_state (a b : state) : Prop :=
+  Permutation (chosen a) (chosen b) /\
+  (forall s, counts a s = counts b s) /\
+  (forall p, aggr a p = aggr b p) /\
+  (forall s, filled a s = filled b s) /\
+  (forall g, utility a g = utility b g).
+
+Lemma same_state_refl a : same_state a a.
+Proof. unfold same_state. repeat split; auto. Qed.
+Lemma same_state_trans a b c : same_state a b -> same_state b c -> same_state a c.
+Proof.
+  intros (A1 & A2 & A3 & A4 & A5) (B1 & B2 & B3 & B4 & B5). unfold same_state.
+  split; [eapply Permutation_trans; eassumption|].
+  repeat split; intros; [rewrite A2 | rewrite A3 | rewrite A4 | rewrite A5]; auto.
+Qed.
+
+Lemma perm_filter {A} (f : A -> bool) l l' : Permutation l l' -> Permutation (filter f l) (filter f l').
+Proof.
+  intros H. induction H as [|x l l' _ IH|x y l|l l' l'' _ IH1 _ IH2]; cbn.
+  - constructor.
+  - destruct (f x); [constructor; exact IH | exact IH].
+  - destruct (f x), (f y); try apply Permutation_refl. apply perm_swap.
+  - eapply Permutation_trans; eassumption.
+Qed.
+Lemma nmem_perm x l l' : Permutation l l' -> nmem x l = nmem x l'.
+Proof.
+  intros H. destruct (nmem x l) eqn:E1, (nmem x l') eqn:E2; try reflexivity.
+  - apply nmem_in in E1. apply nmem_false in E2. exfalso. apply E2. eapply Permutation_in; eassumption.
+  - apply nmem_in in E2. apply nmem_false in E1. exfalso. apply E1.
+    eapply Permutation_in; [apply Permutation_sym|]; eassumption.
+Qed.
+Lemma forallb_perm {A} (f : A -> bool) l l' : Permutation l l' -> forallb f l = forallb f l'.
+Proof.
+  intros H. induction H as [|x l l' _ IH|x y l|l l' l'' _ IH1 _ IH2]; cbn; [reflexivity| | |congruence].
+  - rewrite IH. reflexivity.
+  - destruct (f x), (f y); reflexivity.
+Qed.
+Lemma forallb_ext' {A} (f g : A -> bool) l : (forall x, f x = g x) -> forallb f l = forallb g l.
+Proof. intros H. induction l as [|x t IH]; cbn; [reflexivity|]. rewrite H, IH. reflexivity. Qed.
+Lemma existsb_perm {A} (f : A -> bool) l l' : Permutation l l' -> existsb f l = existsb f l'.
+Proof.
+  intros H. induction H as [|x l l' _ IH|x y l|l l' l'' _ IH1 _ IH2]; cbn; [reflexivity| | |congruence].
+  - rewrite IH. reflexivity.
+  - destruct (f x), (f y); reflexivity.
+Qed.
+Lemma fold_left_flat_map {A B C} (f : A -> C -> A) (h : B -> list C) ps st :
+  fold_left (fun st p => fold_left f (h p) st) ps st = fold_left f (flat_map h ps) st.
+Proof.
+  revert st. induction ps as [|p r IH]; intros st; cbn; [reflexivity|]. rewrite fold_left_app. apply IH.
+Qed.
+
+Section Order.
+Variable n_genes : nat.
+Variable marks : nat -> slot -> bool.
+Variable n : nat.
+Variables pairs pairs' : list nat.
+Hypothesis Hperm : Permutation pairs pairs'.
+
+Lemma slots_perm : Permutation (slots pairs) (slots pairs').
+Proof. unfold slots. apply Permutation_flat_map. exact Hperm. Qed.
+
+Lemma newly_same a b s : same_state a b -> newly n_genes marks n a s = newly n_genes marks n b s.
+Proof.
+  intros (_ & E2 & E3 & E4 & _). unfold newly. rewrite (E2 s), (E3 (fst s)), (E4 s). reflexivity.
+Qed.
+
+Lemma update_same a b : same_state a b ->
+  same_state (update_filled n_genes pairs marks n a) (update_filled n_genes pairs' marks n b).
+Proof.
+  intros E. pose proof E as (E1 & E2 & E3 & E4 & E5). unfold same_state.
+  split; [exact E1|]. split; [exact E2|]. split; [exact E3|]. split.
+  - intros s. rewrite !filled_update. rewrite (E4 s), (newly_same a b s E).
+    rewrite (existsb_perm _ _ _ slots_perm). reflexivity.
+  - intros g. unfold update_filled. cbn [utility]. rewrite (E5 g). f_equal. f_equal.
+    rewrite !count_filter. rewrite (count_perm _ _ _ slots_perm).
+    apply count_ext_in. intros s _. rewrite (newly_same a b s E). reflexivity.
+Qed.
+
+Lemma choose_same a b g : same_state a b -> same_state (choose marks a g) (choose marks b g).
+Proof.
+  intros (E1 & E2 & E3 & E4 & E5). unfold same_state. cbn [choose chosen counts aggr filled utility].
+  split; [apply Permutation_app_tail; exact E1|].
+  split; [intros s; rewrite E2; reflexivity|].
+  split; [intros p; rewrite E3; reflexivity|].
+  split; [exact E4|]. intros h. rewrite E5. reflexivity.
+Qed.
+
+Lemma finished_same a b : same_state a b -> finished n_genes pairs a = finished n_genes pairs' b.
+Proof.
+  intros (_ & _ & _ & E4 & E5). unfold finished. f_equal.
+  - f_equal. unfold max_utility. f_equal. apply map_ext. exact E5.
+  - unfold all_filled. rewrite (forallb_perm _ _ _ slots_perm). apply forallb_ext'. exact E4.
+Qed.
+
+Lemma max_utility_same a b : same_state a b -> max_utility n_genes a = max_utility n_genes b.
+Proof. intros (_ & _ & _ & _ & E5). unfold max_utility. f_equal. apply map_ext. exact E5. Qed.
+
+Lemma step_same a b g a' : same_state a b -> step n_genes pairs marks n a g = Some a' ->
+  exists b', step n_genes pairs' marks n b g = Some b' /\ same_state a' b'.
+Proof.
+  intros E H. pose proof (update_same a b E) as E'. unfold step in *.
+  rewrite <- (finished_same _ _ E').
+  destruct (finished n_genes pairs (update_filled n_genes pairs marks n a)); [discriminate|].
+  pose proof E' as (P1 & _ & _ & _ & P5).
+  rewrite <- (nmem_perm g _ _ P1), <- (P5 g), <- (max_utility_same _ _ E').
+  destruct (negb (nmem g (chosen (update_filled n_genes pairs marks n a))) && nmem g (genes n_genes) &&
+            (utility (update_filled n_genes pairs marks n a) g =? max_utility n_genes (update_filled n_genes pairs marks n a))%Z);
+    [|discriminate].
+  inversion H; subst a'. eexists. split; [reflexivity|]. apply choose_same. exact E'.
+Qed.
+
+Lemma run_same trace : forall a b a', same_state a b -> run n_genes pairs marks n a trace = Some a' ->
+  exists b', run n_genes pairs' marks n b trace = Some b' /\ same_state a' b'.
+Proof.
+  induction trace as [|g t IH]; intros a b a' E H; cbn in *.
+  - pose proof (update_same a b E) as E'. rewrite <- (finished_same _ _ E').
+    destruct (finished n_genes pairs (update_filled n_genes pairs marks n a)); [|discriminate].
+    inversion H; subst a'. eexists. split; [reflexivity | exact E'].
+  - destruct (step n_genes pairs marks n a g) as [a1|] eqn:S; [|discriminate].
+    destruct (step_same a b g a1 E S) as (b1 & S' & E1). rewrite S'. apply (IH a1 b1 a' E1 H).
+Qed.
+
+(* the desperate phase: taking every not-yet-taken gene of a list, in list order *)
+Definition take1 (st : state) (g : nat) : state := if nmem g (chosen st) then st else choose marks st g.
+Definition take_all (l : list nat) (st : state) : state := fold_left take1 l st.
+
+Lemma take1_same a b g : same_state a b -> same_state (take1 a g) (take1 b g).
+Proof.
+  intros E. unfold take1. destruct E as (E1 & E'). rewrite <- (nmem_perm g _ _ E1).
+  destruct (nmem g (chosen a)); [split; assumption | apply choose_same; split; assumption].
+Qed.
+Lemma take_all_same l : forall a b, same_state a b -> same_state (take_all l a) (take_all l b).
+Proof.
+  induction l as [|g r IH]; intros a b E; cbn; [exact E|]. apply IH. apply take1_same. exact E.
+Qed.
+Lemma take1_swap a x y : same_state (take1 (take1 a y) x) (take1 (take1 a x) y).
+Proof.
+  destruct (Nat.eq_dec x y) as [->|Hne]; [apply same_state_refl|].
+  unfold take1.
+  destruct (nmem y (chosen a)) eqn:Ey, (nmem x (chosen a)) eqn:Ex.
+  - rewrite Ey. apply same_state_refl.
+  - cbn [choose chosen]. replace (nmem y (chosen a ++ [x])) with true; [apply same_state_refl|].
+    symmetry. apply nmem_in, in_app_iff. left. apply nmem_in. exact Ey.
+  - cbn [choose chosen]. replace (nmem x (chosen a ++ [y])) with true; [rewrite Ey; apply same_state_refl|].
+    symmetry. apply nmem_in, in_app_iff. left. apply nmem_in. exact Ex.
+  - cbn [choose chosen].
+    replace (nmem x (chosen a ++ [y])) with false.
+    2:{ symmetry. apply nmem_false. rewrite in_app_iff. intros [H|[H|[]]]; [apply nmem_false in Ex; contradiction | congruence]. }
+    replace (nmem y (chosen a ++ [x])) with false.
+    2:{ symmetry. apply nmem_false. rewrite in_app_iff. intros [H|[H|[]]]; [apply nmem_false in Ey; contradiction | congruence]. }
+    unfold same_state. cbn [choose chosen counts aggr filled utility].
+    split; [rewrite <- !app_assoc; apply Permutation_app_head; apply perm_swap|].
+    split; [intros s; lia|]. split; [intros p; lia|]. split; [reflexivity|].
+    intros h. destruct (Nat.eqb h x) eqn:E1, (Nat.eqb h y) eqn:E2; reflexivity.
+Qed.
+Lemma take_all_perm l l' : Permutation l l' -> forall a b, same_state a b -> same_state (take_all l a) (take_all l' b).
+Proof.
+  intros H. induction H as [|x l l' _ IH|x y l|l l' l'' _ IH1 _ IH2]; intros a b E; cbn.
+  - exact E.
+  - apply IH. apply take1_same. exact E.
+  - apply (same_state_trans _ (take_all l (take1 (take1 a x) y))).
+    + apply take_all_same. apply take1_swap.
+    + apply take_all_same. apply take1_same, take1_same. exact E.
+  - apply (same_state_trans _ (take_all l' a)); [apply IH1; apply same_state_refl | apply IH2; exact E].
+Qed.
+
+Lemma desperate_as_take_all ps st :
+  desperate n_genes ps marks n st = take_all (flat_map (pair_genes n_genes marks) (desperate_pairs n_genes ps marks n)) st.
+Proof. unfold desperate, take_all. apply (fold_left_flat_map take1). Qed.
+
+Lemma desperate_same a b : same_state a b ->
+  same_state (desperate n_genes pairs marks n a) (desperate n_genes pairs' marks n b).
+Proof.
+  intros E. rewrite !desperate_as_take_all. apply take_all_perm; [|exact E].
+  apply Permutation_flat_map. unfold desperate_pairs. apply perm_filter. exact Hperm.
+Qed.
+
+Lemma init_same : same_state (init pairs marks) (init pairs' marks).
+Proof.
+  unfold same_state, init. cbn [chosen counts aggr filled utility].
+  split; [constructor|]. repeat split; try reflexivity.
+  intros g. unfold utility0. f_equal. apply count_perm. exact slots_perm.
+Qed.
+
+Lemma start_same : same_state (start n_genes pairs marks n) (start n_genes pairs' marks n).
+Proof. unfold start. apply desperate_same, update_same, init_same. Qed.
+
+(* every legal run under one pair order is a legal run, with the same choice sequence, under
+   the other; the final states differ only in the order of the (desperate) genes *)
+Theorem pair_order_irrelevant trace st :
+  run n_genes pairs marks n (start n_genes pairs marks n) trace = Some st ->
+  exists st', run n_genes pairs' marks n (start n_genes pairs' marks n) trace = Some st' /\
+              Permutation (chosen st) (chosen st') /\
+              (forall s, counts st s = counts st' s) /\ (forall s, filled st s = filled st' s).
+Proof.
+  intros H. destruct (run_same trace _ _ st start_same H) as (st' & R & (E1 & E2 & _ & E4 & _)).
+  exists st'. auto.
+Qed.
+(* a tie-breaking rule that looks only at the utility array and at which genes are taken (here:
+   the first gene of maximal utility; np.argsort of the utility array is another) makes the same
+   choices under both orders *)
+Lemma find_ext' {A} (f g : A -> bool) l : (forall x, f x = g x) -> find f l = find g l.
+Proof. intros H. induction l as [|x t IH]; cbn; [reflexivity|]. rewrite H, IH. reflexivity. Qed.
+
+Lemma first_max_same a b : same_state a b -> first_max n_genes a = first_max n_genes b.
+Proof.
+  intros E. pose proof E as (E1 & _ & _ & _ & E5). unfold first_max. apply find_ext'. intros g.
+  rewrite (nmem_perm g _ _ E1), (E5 g), (max_utility_same _ _ E). reflexivity.
+Qed.
+
+Lemma greedy_same fuel : forall a b a', same_state a b -> greedy n_genes pairs marks n fuel a = Some a' ->
+  exists b', greedy n_genes pairs' marks n fuel b = Some b' /\ same_state a' b'.
+Proof.
+  induction fuel as [|k IH]; intros a b a' E H; cbn in *; [discriminate|].
+  pose proof (update_same a b E) as E'. rewrite <- (finished_same _ _ E').
+  destruct (finished n_genes pairs (update_filled n_genes pairs marks n a)).
+  - inversion H; subst a'. eexists. split; [reflexivity | exact E'].
+  - rewrite <- (first_max_same _ _ E').
+    destruct (first_max n_genes (update_filled n_genes pairs marks n a)) as [g|]; [|discriminate].
+    apply (IH _ _ a' (choose_same _ _ g E') H).
+Qed.
+
+Theorem greedy_order_irrelevant fuel st :
+  greedy n_genes pairs marks n fuel (start n_genes pairs marks n) = Some st ->
+  exists st', greedy n_genes pairs' marks n fuel (start n_genes pairs' marks n) = Some st' /\
+              Permutation (chosen st) (chosen st').
+Proof.
+  intros H. destruct (greedy_same fuel _ _ st start_same H) as (st' & G & (E1 & _)). exists st'. auto.
+Qed.
+End Order.
+
+(* the two index arrays the pipeline can hand to _run_selection for one parent (global sorted
+   = "behemoth", local = order of leaves_to_compare) are permutations of each other *)
+Lemma parent_idx_perm rm t parent i1 i2 :
+  parent_idx rm t parent true = Some i1 -> parent_idx rm t parent false = Some i2 -> Permutation i1 i2.
+Proof.
+  unfold parent_idx. destruct (opt_all _) as [idx|]; [|discriminate].
+  intros H1 H2. inversion H1; inversion H2; subst. unfold nat_sort.
+  eapply Permutation_trans; [apply Permutation_map, zsort_perm|].
+  rewrite map_map. erewrite map_ext; [rewrite map_id; apply Permutation_refl|].
+  intros x. apply Nat2Z.id.
+Qed.
+
+(* ------------------------------------------------------------------ thinning to the query genes *)
+Lemma index_of_spec keep : NoDup keep -> forall i j, index_of i keep = Some j <-> nth_error keep j = Some i.
+Proof.
+  induction keep as [|y t IH]; intros ND i j; cbn.
+  - split; [discriminate | destruct j; discriminate].
+  - inversion ND as [|? ? Hy ND']; subst. destruct (Nat.eqb i y) eqn:E.
+    + apply Nat.eqb_eq in E. subst y. split.
+      * intros H. inversion H. reflexivity.
+      * destruct j as [|j]; [reflexivity|]. cbn. intros H. apply nth_error_In in H. contradiction.
+    + apply Nat.eqb_neq in E. destruct j as [|j]; cbn.
+      * split; [destruct (index_of i t); discriminate | intros H; inversion H; congruence].
+      * rewrite <- (IH ND' i j). destruct (index_of i t) as [k|]; cbn; split; intros H; inversion H; reflexivity.
+Qed.
+
+Lemma remap_spec keep l j : NoDup keep ->
+  In j (remap keep l) <-> exists i, nth_error keep j = Some i /\ In i l.
+Proof.
+  intros ND. unfold remap. rewrite in_flat_map. split.
+  - intros (i & Hi & H). destruct (index_of i keep) as [k|] eqn:E; [|destruct H].
+    destruct H as [<-|[]]. exists i. split; [apply (index_of_spec keep ND); exact E | exact Hi].
+  - intros (i & Hn & Hi). exists i. split; [exact Hi|]. apply (index_of_spec keep ND) in Hn. rewrite Hn. left. reflexivity.
+Qed.
+
+Lemma keep_idx_spec rm query i :
+  In i (keep_idx rm query) <-> i < length (rm_genes rm) /\ In (nth i (rm_genes rm) 0%Z) query.
+Proof. unfold keep_idx. rewrite filter_In, in_seq, zmem_in. split; intros [H1 H2]; split; auto; lia. Qed.
+Lemma keep_idx_nodup rm query : NoDup (keep_idx rm query).
+Proof. unfold keep_idx. apply NoDup_filter, seq_NoDup. Qed.
+
+(* the thinned table: gene j of the thinned array is reference gene keep[j] (a reference gene that
+   occurs in the query, reference order kept); it is listed for a pair and a direction iff
+   reference gene keep[j] is listed there in the file; pairs and their positions are untouched *)
+Theorem thinning_sound rm query :
+  let keep := keep_idx rm query in
+  rm_genes (thin_genes rm query) = map (fun i => nth i (rm_genes rm) 0%Z) keep /\
+  (forall i, In i keep <-> i < length (rm_genes rm) /\ In (nth i (rm_genes rm) 0%Z) query) /\
+  length (rm_pairs (thin_genes rm query)) = length (rm_pairs rm) /\
+  forall k e, nth_error (rm_pairs rm) k = Some e ->
+    exists e', nth_error (rm_pairs (thin_genes rm query)) k = Some e' /\ fst e' = fst e /\
+      (forall j, In j (fst (snd e')) <-> exists i, nth_error keep j = Some i /\ In i (fst (snd e))) /\
+      (forall j, In j (snd (snd e')) <-> exists i, nth_error keep j = Some i /\ In i (snd (snd e))).
+Proof.
+  cbv zeta. split; [reflexivity|]. split; [apply keep_idx_spec|]. split; [cbn; apply map_length|].
+  intros k e H. unfold thin_genes. cbn [rm_pairs].
+  eexists. split; [apply map_nth_error; exact H|]. cbn [fst snd]. split; [reflexivity|].
+  split; intros j; apply remap_spec, keep_idx_nodup.
+Qed.
